@@ -24,6 +24,7 @@ var queries = []string{
 	`+p:>=2 AND -q:"r s" AND u:/v.w/ AND (zz:[* TO 9] OR yy:{k TO m})`,
 	`a:b AND c:/d.e/ OR f:[* TO 1.5]`,
 	`x y "z w"`,
+	`a:1 and b:2 or not c:3 AND d:[x to y] Or e:5`,
 }
 
 func ops(q string, shared *expr.Expression) []func() string {
